@@ -88,6 +88,16 @@ Lemma w4_unreduced_key_accepted :
   spec_verify (lib_z w4_dg) w4_sig (1, w4_y) = Some true.
 Proof. conj_vm. Qed.
 
+(* the same key given as bytes 02 || (p + 1): refused by Key() since C04 fix 75f674d (strict, the default), as
+   SEC 1 demands; only the tolerant reading Key(.., strict=False) still yields the unreduced point w4_Q *)
+Definition w4_pk : bytes := x02 :: be_bytes 32 (secp_p + 1).
+Lemma w4_key_bytes_refused :
+  lib_pub_point w4_pk = None /\ parse_point w4_pk = None /\ lib_pub_point_lax w4_pk = Some w4_Q /\
+  lib_verify_key w4_dg w4_sig w4_pk = None /\ spec_verify_key (lib_z w4_dg) w4_sig w4_pk = None /\
+  lib_verify_key w4_dg w4_sig (x02 :: be_bytes 32 1) = Some true /\
+  spec_verify_key (lib_z w4_dg) w4_sig (x02 :: be_bytes 32 1) = Some true.
+Proof. conj_vm. Qed.
+
 (* ---- the nonce source evaluated: key 1, digest 00..01 (no curve arithmetic involved) *)
 Lemma w5_nonce :
   lib_nonce 1 (be_bytes 32 1) = rfc6979_nonce 1 (Crypto.Sha256.sha256 (hex_ascii (be_bytes 32 1))) /\
